@@ -133,3 +133,25 @@ impl IoUring {
             .load(core::sync::atomic::Ordering::Acquire)
     }
 }
+
+impl crate::platform::SocketArgUnix {
+    /// A unix socket address with arbitrary `sun_path` bytes (at most 108, e.g. an abstract name: leading NUL,
+    /// length-delimited, interior NULs allowed) and the address length `2 + sun_path.len()`.
+    #[must_use]
+    pub fn verif_from_sun_path(sun_path: &[u8]) -> Self {
+        let mut buf = [0 as core::ffi::c_char; 108];
+        let n = if sun_path.len() < 108 { sun_path.len() } else { 108 };
+        let mut i = 0;
+        while i < n {
+            buf[i] = sun_path[i] as core::ffi::c_char;
+            i += 1;
+        }
+        Self {
+            addr: crate::platform::SocketAddressUnix(linux_rust_bindings::socket::sockaddr_un {
+                sun_family: crate::platform::AddressFamily::AF_UNIX.0,
+                sun_path: buf,
+            }),
+            addr_len: 2 + n,
+        }
+    }
+}
